@@ -147,7 +147,7 @@ def call(world: E.World, a):
         return type(e).__name__
 
 
-def sibling_attached_attempts(run: Run, stream):
+def sibling_attached_attempts(run: Run, stream, only=None):
     """nodes without a parent that still have siblings: the root of a document with prologue/epilogue, the
     members of a parentless comment/PI chain - offered under no and under default ambient filters"""
     import contextlib
@@ -156,8 +156,10 @@ def sibling_attached_attempts(run: Run, stream):
     from _delb.exceptions import InvalidOperation
     import trees
 
-    rng = run.rng
-    for _ in range(40):
+    import random
+
+    for sub in ([only] if only is not None else [run.rng.getrandbits(32) for _ in range(40)]):
+        rng = random.Random(sub)
         pro = rng.choice(["<!--p-->", "<?pi p?>", "<!--a--><!--b-->", ""])
         epi = rng.choice(["<!--e-->", "<?pi e?>", "<!--e1--><?pi e2?>", ""])
         if not pro and not epi:
@@ -183,7 +185,8 @@ def sibling_attached_attempts(run: Run, stream):
             offered = c2 if which == "chain-last" else c1
         amb = rng.choice(["none", "default"])
         how = rng.choice(["append", "add_following", "insert"])
-        case = {"attempt": {"why": "attached", "op": how, "offered": which, "ambient": amb, "prologue": pro, "epilogue": epi,
+        case = {"sub": ["siblings", sub],
+                "attempt": {"why": "attached", "op": how, "offered": which, "ambient": amb, "prologue": pro, "epilogue": epi,
                             "root": root_xml}}
         before = (str(src), trees.extract(tgt.root))
         raised = None
@@ -207,6 +210,77 @@ def sibling_attached_attempts(run: Run, stream):
             run.violation(stream, case, {"why": f"a node with siblings was offered: expected InvalidOperation, got {raised}"})
         if before != after:
             run.violation(stream, case, {"why": "rejected call changed a tree", "before": before, "after": after})
+
+
+def root_history_attempts(run: Run, stream, only=None):
+    """the root of a document stays protected whatever sequence of root assignments (another node, the same node again,
+    a former root, assignments that are refused) came before the illegal call"""
+    from delb import Document, altered_default_filters, new_tag_node
+
+    import random
+
+    for sub in ([only] if only is not None else [run.rng.getrandbits(32) for _ in range(40)]):
+        rng = random.Random(sub)
+        pro = rng.choice(["<!--p-->", "<?pi p?>", ""])
+        epi = rng.choice(["<!--e-->", ""])
+        doc = Document(pro + rng.choice(["<root><a/>t</root>", "<root/>", "<root>t<b>u</b></root>"]) + epi)
+        former = [doc.root]
+        history = []
+        for _ in range(rng.randint(1, 4)):
+            k = rng.choice(["same", "same", "new", "former", "attached", "not-a-tag"])
+            history.append(k)
+            try:
+                if k == "same":
+                    doc.root = doc.root
+                elif k == "new":
+                    former.append(doc.root)
+                    doc.root = new_tag_node("n" + str(len(former)), children=["x"])
+                elif k == "former":
+                    n = rng.choice(former)
+                    if n is not doc.root:
+                        former.append(doc.root)
+                    doc.root = n
+                elif k == "attached":
+                    doc.root = Document("<o><i/></o>").root[0]
+                else:
+                    doc.root = "text"
+            except (TypeError, ValueError):
+                pass
+        root = doc.root
+        op = rng.choice(["detach", "detach-retain", "replace", "add_following", "add_preceding"])
+        case = {"sub": ["root-history", sub],
+                "attempt": {"why": "detach-doc-root" if op.startswith("detach") else ("replace-root" if op == "replace" else "root-sibling"),
+                            "op": op, "history": history, "prologue": pro, "epilogue": epi}}
+        before = str(doc)
+        raised = None
+        try:
+            with altered_default_filters():
+                if op == "detach":
+                    root.detach()
+                elif op == "detach-retain":
+                    root.detach(retain_child_nodes=True)
+                elif op == "replace":
+                    root.replace_with("txt")
+                elif op == "add_following":
+                    root.add_following_siblings("txt")
+                else:
+                    root.add_preceding_siblings("txt")
+        except Exception as e:  # noqa: BLE001
+            raised = type(e).__name__
+        try:
+            after = str(doc)
+        except Exception as e:  # noqa: BLE001
+            after = "serializing raised " + type(e).__name__
+        run.case(stream, case, True)
+        run.count("attempt", "after-root-assignments:" + op)
+        if raised is None:
+            run.violation(stream, case, {"why": "illegal call on the document's root was not rejected", "before": before, "after": after})
+        elif raised not in PROPERTY_CLASS[case["attempt"]["why"]]:
+            run.violation(stream, case, {"why": f"rejected with {raised}"})
+        if before != after:
+            run.violation(stream, case, {"why": "rejected call changed the document", "before": before, "after": after})
+        if root.document is not doc or doc.root is not root:
+            run.violation(stream, case, {"why": "the document and its root no longer refer to each other"})
 
 
 def guard_request(mirror: E.Mirror, a):
@@ -301,6 +375,7 @@ def check(run: Run, lean: dict) -> int:
         run_one(run, "generated", E.pick_doc(run.rng), None, run.rng.randint(0, 10), rows)
     for _ in range(max(4, n // 10)):
         sibling_attached_attempts(run, "siblings")
+        root_history_attempts(run, "root-history")
     if ok and rows:
         for (case, req, raised, known), m in zip(rows, run_driver([r[1] for r in rows])):
             if "driver_error" in m:
@@ -322,6 +397,7 @@ def search(run: Run):
     for _ in range(1500):
         run_one(probe, "search", E.pick_doc(probe.rng), None, probe.rng.randint(0, 12), [])
         sibling_attached_attempts(probe, "search")
+        root_history_attempts(probe, "search")
         if probe.violations:
             return [probe.violations[0]]
     return None
@@ -332,6 +408,12 @@ def replay(payload: dict) -> int:
     for f in payload.get("failing", []):
         c = f["case"]
         probe = Run("C09", "quick", 0)
+        if "sub" in c:
+            (sibling_attached_attempts if c["sub"][0] == "siblings" else root_history_attempts)(probe, "replay", only=c["sub"][1])
+            print(json.dumps({"attempt": c["attempt"], "violations": [v["detail"] if "detail" in v else v for v in probe.violations]},
+                             ensure_ascii=False, default=str)[:1500])
+            bad += bool(probe.violations)
+            continue
         gc.disable()
         world = E.World(c["xml"])
         mirror = E.initial_mirror(world)
